@@ -503,17 +503,22 @@ def main():
             tag = "hc-%s-%s-%s" % (re.sub(r"\W", "_", h), "_".join(p.split("_")[1] for p in perm),
                                    o.key.replace("+", "_"))
             return j, collision_case(b, root, perm, o, tag)
+        cfail = {}
         for (h, perm, o), res in pmap(runc, cj):
             key = "collision|%s|%s" % (",".join(perm), o.key)
             ck.note(key, nontrivial=res.get("collided", 0) >= 1 and res.get("same4", 0) >= 1, family="collisions",
                     outcome="collision:%s:%s" % (res["status"], o.backend),
                     sample={"functions": perm, "options": o.argv(), "names": res.get("names")})
             if res["status"] not in ("ok",):
-                ck.fail(key, "hash collision %s: %s" % (res["status"], res["sig"]),
-                        {"observed": res["sig"], "kind": "collision", "fns": list(perm), "opt": o.key,
-                         "result": res},
-                        confirm=lambda perm=perm, o=o, st=res["status"]:
-                        collision_case(b, root, perm, o, "hc-confirm")["status"] == st)
+                cfail.setdefault((o.backend, res["status"], res["sig"]), []).append((key, perm, o, res))
+        for (be, st, sig), members in sorted(cfail.items()):
+            key, perm, o, res = sorted(members, key=lambda m: (m[2].deviations(), m[2].key, m[0]))[0]
+            ck.fail(key, "hash collision %s: %s [smallest of %d colliding-library case(s) of back-end -%s with "
+                         "this observation]" % (st, sig, len(members), be),
+                    {"observed": sig, "kind": "collision", "fns": list(perm), "opt": o.key,
+                     "result": res, "same_observation_cases": sorted(m[0] for m in members)[:300]},
+                    confirm=lambda perm=perm, o=o, st=st:
+                    collision_case(b, root, perm, o, "hc-confirm")["status"] == st)
 
     # ---------------- phase 4: full link + import
     if want("import") and not ck.expired(reserve=90):
